@@ -17,6 +17,29 @@ Check venc_param_range :
   W_encrypt W x pk label (Some sp) seed tape = Err E_INVALID_SIZE.
 Print Assumptions venc_param_range.
 
+(** The same at the width of the caller's [usize]: the comparison is made on the full value (a parameter such as
+    2^16 + 128, which a narrowing conversion would move into the window, is refused), and on parameters that fit a nat
+    the usize-wide entry point IS the function the other theorems speak about. *)
+Theorem venc_param_range_usize :
+  forall (W : venc_world) (x : Z) (pk : w_PK W) (label : list N) (s : N) (seed : list N) (tape : nat -> Z),
+  (s < 128 \/ 256 < s)%N ->
+  W_encrypt_usize W x pk label (Some s) seed tape = Err E_INVALID_SIZE.
+Proof. exact venc_param_range_usize_lem. Qed.
+Check venc_param_range_usize :
+  forall (W : venc_world) (x : Z) (pk : w_PK W) (label : list N) (s : N) (seed : list N) (tape : nat -> Z),
+  (s < 128 \/ 256 < s)%N ->
+  W_encrypt_usize W x pk label (Some s) seed tape = Err E_INVALID_SIZE.
+Print Assumptions venc_param_range_usize.
+
+Theorem venc_encrypt_usize_nat :
+  forall (W : venc_world) (x : Z) (pk : w_PK W) (label : list N) (sp : option nat) (seed : list N) (tape : nat -> Z),
+  W_encrypt_usize W x pk label (option_map N.of_nat sp) seed tape = W_encrypt W x pk label sp seed tape.
+Proof. exact encrypt_usize_nat. Qed.
+Check venc_encrypt_usize_nat :
+  forall (W : venc_world) (x : Z) (pk : w_PK W) (label : list N) (sp : option nat) (seed : list N) (tape : nat -> Z),
+  W_encrypt_usize W x pk label (option_map N.of_nat sp) seed tape = W_encrypt W x pk label sp seed tape.
+Print Assumptions venc_encrypt_usize_nat.
+
 (** With a working RSA key pair the prover returns a proof for every permitted parameter (None = SECURITY_PARAM = 128), every x, label, seed, tape. *)
 Theorem venc_encrypt_succeeds :
   forall W : venc_world, world_ok W ->
